@@ -20,99 +20,51 @@
    certificate (c39_init_rejects_expired; the IsZero arm:
    c39_zero_expiry_never_expired).  SetConfiguration reads no clock and has no
    expiry check (c39_set_configuration_no_expiry_check).  Certificate.Equals
-   does not look at the expiry, and SetConfiguration stores the ARGUMENT's
-   certificate list as soon as it compared equal -- before the remaining
-   checks.  So for a certificate object that is the stored one for Equals but
-   reports another expiry (CertificateFromX509 with a copied *x509.Certificate
-   whose NotAfter was overwritten) the statements "a rejected call leaves the
-   configuration exactly as it was" and "a successful call keeps the
-   certificates" are FALSE for the code: _refuted below, _partial under
-   expiry_agrees (position by position, a named certificate with the stored
-   one's x509 identity reports the stored one's expiry), _upto_expiry without
-   any guard (everything but the reported expiry is kept). *)
+   does not look at the expiry (c39_expiry_not_compared): a certificate object
+   that is the stored one for Equals but reports another expiry
+   (CertificateFromX509 with a copied *x509.Certificate whose NotAfter was
+   overwritten) is accepted as "the same".  SetConfiguration used to store the
+   argument's list at that point, before its remaining checks, so that
+   rejected and accepted calls alike replaced the stored certificates (the
+   statements below were refuted); since the fix it assigns nothing there and
+   the statements hold in full: the stored certificate objects, expiry
+   included, are those NewPeerConnection stored. *)
 From Coq Require Import List Bool String NArith ZArith.
 Import ListNotations.
 From Verif Require Import Common.Base Model.Config Proofs.Config.
 Open Scope string_scope.
 
-(* FULL STATEMENT, false for the code:
-     forall closed has_local cur new c' r,
-       set_configuration closed has_local cur new = (c', r) -> r <> Ok tt -> c' = cur.
-   A rejected call can leave the stored certificate reporting another expiry *)
-Theorem c39_reject_unchanged_refuted : exists closed has_local cur new c' r,
-  set_configuration closed has_local cur new = (c', r) /\ r <> Ok tt /\ c' <> cur /\
-  changes_certs cur new = false /\
-  map c_expires (certs c') <> map c_expires (certs cur).
-Proof. exact reject_unchanged_refuted. Qed.
-Print Assumptions c39_reject_unchanged_refuted.
-
 (* a rejected call (any error, or a panic) leaves GetConfiguration exactly as
-   it was -- for every clock (none is read), every stored configuration and
-   every argument whose certificates agree with the stored ones on the expiry *)
-Theorem c39_reject_unchanged_partial : forall closed has_local cur new c' r,
-  expiry_agrees (certs cur) (certs new) = true ->
+   it was -- certificates with the expiry they report included *)
+Theorem c39_reject_unchanged : forall closed has_local cur new c' r,
   set_configuration closed has_local cur new = (c', r) -> r <> Ok tt -> c' = cur.
-Proof. exact reject_unchanged_partial. Qed.
-Print Assumptions c39_reject_unchanged_partial.
-
-(* no guard: a rejected call leaves everything but the expiry the stored
-   certificates report; their key type, key and x509 identity stay *)
-Theorem c39_reject_unchanged_upto_expiry : forall closed has_local cur new c' r,
-  set_configuration closed has_local cur new = (c', r) -> r <> Ok tt ->
-  with_certs c' (certs cur) = cur /\ map cert_id (certs c') = map cert_id (certs cur).
-Proof. exact reject_unchanged_upto_expiry. Qed.
-Print Assumptions c39_reject_unchanged_upto_expiry.
+Proof. exact reject_unchanged. Qed.
+Print Assumptions c39_reject_unchanged.
 
 (* every attempt to change an immutable setting is rejected, with
-   InvalidModificationError, whatever else the call contains -- no guard *)
+   InvalidModificationError, whatever else the call contains *)
 Theorem c39_change_rejected : forall has_local cur new,
   changes_immutable has_local cur new = true ->
-  snd (set_configuration false has_local cur new) = Err E_modification.
-Proof. exact change_rejected_class. Qed.
-Print Assumptions c39_change_rejected.
-
-(* ... with nothing stored (full statement "= (cur, Err E_modification)" is
-   false by the witness of c39_reject_unchanged_refuted) *)
-Theorem c39_change_rejected_partial : forall has_local cur new,
-  expiry_agrees (certs cur) (certs new) = true ->
-  changes_immutable has_local cur new = true ->
   set_configuration false has_local cur new = (cur, Err E_modification).
-Proof. exact change_rejected_partial. Qed.
-Print Assumptions c39_change_rejected_partial.
-
-(* FULL STATEMENT, false for the code: a successful call keeps the certificates *)
-Theorem c39_immutable_refuted : exists closed has_local cur new c',
-  set_configuration closed has_local cur new = (c', Ok tt) /\ certs c' <> certs cur /\
-  changes_certs cur new = false.
-Proof. exact immutable_kept_refuted. Qed.
-Print Assumptions c39_immutable_refuted.
+Proof. exact change_rejected. Qed.
+Print Assumptions c39_change_rejected.
 
 (* a successful call keeps bundle policy, rtcp-mux policy, peer identity,
    certificates -- and the pool size and SDP semantics, with or without a
    local description *)
-Theorem c39_immutable_partial : forall closed has_local cur new c',
-  expiry_agrees (certs cur) (certs new) = true ->
+Theorem c39_immutable : forall closed has_local cur new c',
   set_configuration closed has_local cur new = (c', Ok tt) ->
   bundle c' = bundle cur /\ rtcpmux c' = rtcpmux cur /\ identity c' = identity cur /\
   certs c' = certs cur /\ pool c' = pool cur /\ semantics c' = semantics cur.
-Proof. exact immutable_kept_partial. Qed.
-Print Assumptions c39_immutable_partial.
-
-(* no guard: all of it but the expiry the certificates report *)
-Theorem c39_immutable_upto_expiry : forall closed has_local cur new c',
-  set_configuration closed has_local cur new = (c', Ok tt) ->
-  bundle c' = bundle cur /\ rtcpmux c' = rtcpmux cur /\ identity c' = identity cur /\
-  map cert_id (certs c') = map cert_id (certs cur) /\ pool c' = pool cur /\
-  semantics c' = semantics cur.
-Proof. exact immutable_kept_upto_expiry. Qed.
-Print Assumptions c39_immutable_upto_expiry.
+Proof. exact immutable_kept. Qed.
+Print Assumptions c39_immutable.
 
 (* certificate identity is the x509 certificate together with its key, not
    the key: a call that names, at any position, a certificate Equals can tell
    from the stored one is rejected and changes nothing -- in particular
    (second clause) another x509 certificate issued for the very same key
    (c_key c = c_key n is allowed), and a stored list in another order or with
-   duplicates.  No guard: these are rejected before anything is stored *)
+   duplicates *)
 Theorem c39_certificate_identity : forall has_local cur new i c n,
   nth_error (certs cur) i = Some c -> nth_error (certs new) i = Some n ->
   (cert_id c <> cert_id n -> set_configuration false has_local cur new = (cur, Err E_modification)) /\
@@ -120,7 +72,8 @@ Theorem c39_certificate_identity : forall has_local cur new i c n,
 Proof. exact certificate_identity. Qed.
 Print Assumptions c39_certificate_identity.
 
-(* the one thing the comparison does not see is the expiry *)
+(* the one thing the comparison does not see is the expiry: such a certificate
+   is accepted as the stored one (and, c39_immutable, not stored) *)
 Theorem c39_expiry_not_compared : forall c n,
   cert_id c = cert_id n -> cert_equals c n = cert_equals c c.
 Proof. exact expiry_not_compared. Qed.
@@ -134,12 +87,11 @@ Theorem c39_same_certificates_accepted : forall cur new,
 Proof. exact same_certificates_no_change. Qed.
 Print Assumptions c39_same_certificates_accepted.
 
-(* what a successful call does change: exactly the mutable tail -- and the
-   stored certificate list becomes the argument's (adopt_certs) *)
+(* what a successful call does change: exactly the mutable tail *)
 Theorem c39_success_effect : forall closed has_local cur new c',
   set_configuration closed has_local cur new = (c', Ok tt) ->
   closed = false /\ changes_immutable has_local cur new = false /\
-  servers_valid (servers new) = true /\ c' = mutable_tail (adopt_certs cur new) new.
+  servers_valid (servers new) = true /\ c' = mutable_tail cur new.
 Proof. exact success_effect. Qed.
 Print Assumptions c39_success_effect.
 
@@ -155,31 +107,14 @@ Theorem c39_error_class : forall closed has_local cur new c' e,
 Proof. exact error_class. Qed.
 Print Assumptions c39_error_class.
 
-(* FULL STATEMENT, false for the code: invalid ICE servers are rejected
-   without partial changes *)
-Theorem c39_servers_atomic_refuted : exists has_local cur new,
-  changes_immutable has_local cur new = false /\ servers_valid (servers new) = false /\
-  set_configuration false has_local cur new <> (cur, Err E_access).
-Proof. exact servers_atomic_refuted. Qed.
-Print Assumptions c39_servers_atomic_refuted.
-
 (* invalid ICE servers are rejected without partial changes, wherever the
    invalid server stands in the list *)
-Theorem c39_servers_atomic_partial : forall has_local cur new (a : list server) s b,
-  expiry_agrees (certs cur) (certs new) = true ->
+Theorem c39_servers_atomic : forall has_local cur new (a : list server) s b,
   changes_immutable has_local cur new = false ->
   servers new = (a ++ s :: b)%list -> server_valid s = false ->
   set_configuration false has_local cur new = (cur, Err E_access).
-Proof. exact servers_atomic_anywhere_partial. Qed.
-Print Assumptions c39_servers_atomic_partial.
-
-(* no guard: InvalidAccess, and nothing but the reported expiry touched *)
-Theorem c39_servers_atomic_upto_expiry : forall has_local cur new,
-  changes_immutable has_local cur new = false -> servers_valid (servers new) = false ->
-  snd (set_configuration false has_local cur new) = Err E_access /\
-  with_certs (fst (set_configuration false has_local cur new)) (certs cur) = cur.
-Proof. exact servers_atomic_upto_expiry. Qed.
-Print Assumptions c39_servers_atomic_upto_expiry.
+Proof. exact servers_atomic_anywhere. Qed.
+Print Assumptions c39_servers_atomic.
 
 (* no index out of range in the certificate comparison *)
 Theorem c39_never_panics : forall closed has_local cur new,
@@ -188,22 +123,11 @@ Proof. exact never_panics. Qed.
 Print Assumptions c39_never_panics.
 
 (* over any history of SetConfiguration calls, SetLocalDescription and Close on
-   one connection the immutable settings are those NewPeerConnection stored --
-   where expiry is a function f of the x509 identity throughout the history
-   (true of parsed certificates); the full statement falls with
-   c39_immutable_refuted *)
-Theorem c39_history_immutable_partial : forall f os s,
-  expiry_from f (certs (conf s)) -> Forall (op_expiry_from f) os ->
+   one connection the immutable settings are those NewPeerConnection stored *)
+Theorem c39_history_immutable : forall os s,
   immutable_part (conf (crun s os)) = immutable_part (conf s).
-Proof. exact crun_immutable_partial. Qed.
-Print Assumptions c39_history_immutable_partial.
-
-(* no guard: policies, identity, pool, semantics and the certificates' key
-   type, key and x509 identity are those NewPeerConnection stored *)
-Theorem c39_history_immutable_upto_expiry : forall os s,
-  immutable_ids (conf (crun s os)) = immutable_ids (conf s).
-Proof. exact crun_immutable_ids. Qed.
-Print Assumptions c39_history_immutable_upto_expiry.
+Proof. exact crun_immutable. Qed.
+Print Assumptions c39_history_immutable.
 
 (* the stored policies are never zero, so "non-zero and different" is the only
    way to ask for a change *)
@@ -286,14 +210,15 @@ Example c39_ex_same_key_other_certificate :
   set_configuration false true ex_cur ex_renewed = (ex_cur, Err E_modification).
 Proof. split; reflexivity. Qed.
 
-(* Were certificates compared by key alone, the certificate block would accept
-   the renewed certificate and store it: the stored certificate list changes,
-   against c39_immutable / c39_reject_unchanged *)
+(* Were certificates compared by key alone, the certificate block would let
+   the renewed certificate through as "unchanged" (since the fix nothing is
+   stored there, so the stored list stays; the call is accepted against
+   c39_change_rejected / c39_certificate_identity) *)
 Definition key_only (c o : cert) : bool :=
   keytype_eqb (c_ktype c) (c_ktype o) && comparable c && Z.eqb (c_key c) (c_key o).
 
 Example c39_ex_key_only_equality_would_accept :
-  sc_certs_by key_only ex_cur ex_renewed = (ex_renewed, Ok tt) /\
+  sc_certs_by key_only ex_cur ex_renewed = (ex_cur, Ok tt) /\
   certs ex_renewed <> certs ex_cur /\
   sc_certs ex_cur ex_renewed = (ex_cur, Err E_modification).
 Proof. repeat split; try reflexivity. discriminate. Qed.
@@ -333,10 +258,13 @@ Example c39_ex_boundary_and_zero :
   init_configuration 5001 (with_certs ex_cur (certs (c 0) ++ certs (c 5000))) = Err E_access.
 Proof. repeat split. Qed.
 
-(* the premises of the _partial theorems hold for distinct certificates, fail
-   for the refutation witness *)
-Example c39_ex_expiry_agrees :
-  expiry_agrees (certs ex_cur) (certs ex_renewed) = true /\
-  expiry_agrees (certs ex_cur) (certs ex_cur) = true /\
-  expiry_agrees (certs wit_cur) (certs wit_new) = false.
+(* the stored certificate named through an object that reports another expiry
+   (5000 stored, 1000 named): accepted as the same certificate, alone or in a
+   call rejected for its bundle policy -- and the stored one stays *)
+Example c39_ex_other_expiry_not_stored :
+  let n := with_certs ex_cur [{| c_ktype := KEcdsa; c_key := 0; c_x509 := 0; c_expires := 1000 |}] in
+  changes_certs ex_cur n = false /\
+  set_configuration false false ex_cur n = (mutable_tail ex_cur n, Ok tt) /\
+  certs (mutable_tail ex_cur n) = certs ex_cur /\
+  set_configuration false false ex_cur (with_bundle n 3) = (ex_cur, Err E_modification).
 Proof. repeat split. Qed.
